@@ -252,24 +252,51 @@ def _groups(ctx) -> None:
 
 
 def _selections(ctx) -> None:
+    from ..symx import Interp as SInterp
+    from ..symx import elements, kw, show
+    from .c07 import multi_name_selection
     prog = ctx.prog
     f = prog.func("table.Table.sort_by")
-    rebuild = [lp for lp in f.body if isinstance(lp, ast.For) and short(lp.iter) == "self._underlying" and isinstance(lp.target, ast.Name)]
-    ok = any(isinstance(n, ast.Call) and short(n.func) == "Vector" and kwarg(n, "name") is not None
-             and short(kwarg(n, "name")) == f"{lp.target.id}._name" for lp in rebuild for n in walk_no_nested(lp)) and \
-        any("Vector([], name=_0._name) for _0 in self._underlying" in cshort(n) for n in walk_no_nested(f.node)
-            if isinstance(n, (ast.ListComp, ast.GeneratorExp)))
-    ctx.ob("h.table-selections", f, "sort_by", ok, "sorted columns keep their source names (also for the empty table)", f.node,
-           message="Table.sort_by does not rebuild every column under its source column's stored name")
+    it = SInterp(prog, f)
+    cols = ("attr", ("param", f.params[0]), "_underlying")
+    rets = [e for e in it.events if e.kind == "return" and e.depth == 0]
+    bad = []
+    for r in rets:
+        t = r.term
+        okr = False
+        if t[0] == "call" and t[1] == ("name", "Table") and len(t[2]) == 1 and t[2][0][0] == "obj":
+            els = elements(it, t[2][0])
+            if len(els) == 1:
+                e = els[0]
+                v = e.value if e.kind == "elem" else (e.term[2][0] if e.term[2] else None)
+                lps = [L for L in e.loops if L not in it.objs[t[2][0][1]].loops]
+                okr = len(lps) == 1 and it.loops[lps[0]].iter == cols and v is not None and v[0] == "call" and v[1] == ("name", "Vector") \
+                    and kw(v, "name") == ("attr", ("elem", cols, lps[0]), "_name")
+        if not okr:
+            bad.append(r)
+    ctx.ob("h.table-selections", f, "sort_by", not bad and bool(rets), "sorted columns keep their source names (also for the empty table)",
+           bad[0].node if bad else f.node, message="Table.sort_by does not rebuild every column under its source column's stored name")
     g = prog.func("table.Table.__getitem__")
-    # multi-name selection copies columns (copy keeps the name); row selections go through Vector.__getitem__ (keeps the name)
-    n_copy = sum(1 for n in walk_no_nested(g.node) if isinstance(n, ast.Call) and isinstance(n.func, ast.Attribute) and n.func.attr == "append"
-                 and len(n.args) == 1 and isinstance(n.args[0], ast.Call) and isinstance(n.args[0].func, ast.Attribute)
-                 and n.args[0].func.attr == "copy" and not n.args[0].args and not n.args[0].keywords)
-    ctx.ob("h.table-selections", g, "column-selection", n_copy >= 3, f"{n_copy} selection sites append col.copy() (name kept)", g.node,
-           message="multi-name selection no longer takes plain copies of the selected columns")
-    rows = [n for n in walk_no_nested(g.node) if isinstance(n, ast.GeneratorExp) and cshort(n) == "(_0[key] for _0 in self._underlying)"]
-    ctx.ob("h.table-selections", g, "row-selection", len(rows) >= 4, f"{len(rows)} row selections index each column (name kept by Vector.__getitem__)",
+    gi, Ln, rc, els = multi_name_selection(prog)
+    vals = [e.value if e.kind == "elem" else (e.term[2][0] if e.term[2] else None) for e in els]
+    plain = [v for v in vals if v is not None and v[0] == "call" and v[1][0] == "attr" and v[1][2] == "copy" and not v[2] and not v[3]]
+    ctx.ob("h.table-selections", g, "column-selection", len(plain) == len(vals) and bool(vals),
+           f"{len(plain)} selection site(s) append col.copy() (name kept)", els[0].node,
+           message="multi-name selection no longer takes plain copies of the selected columns: " +
+                   "; ".join(show(v, gi)[:50] for v in vals if v not in plain))
+    key_terms = set()
+    n_rows = 0
+    gcols = ("attr", ("param", g.params[0]), "_underlying")
+    for oid, o in gi.objs.items():
+        if o.kind in ("genexp", "listcomp"):
+            evs = [e for e in gi.events if e.kind == "elem" and e.term == ("obj", oid)]
+            if len(evs) == 1:
+                e = evs[0]
+                lps = [L for L in e.loops if L not in o.loops]
+                if len(lps) == 1 and gi.loops[lps[0]].iter == gcols and e.conds == o.conds and e.value[0] == "sub" \
+                        and e.value[1] == ("elem", gcols, lps[0]):
+                    n_rows += 1
+    ctx.ob("h.table-selections", g, "row-selection", n_rows >= 4, f"{n_rows} row selections index each column (name kept by Vector.__getitem__)",
            g.node, message="row selections no longer index each column with the key (which keeps the column's name)")
 
 
